@@ -107,7 +107,17 @@ type PathResult struct {
 	Leaks      int
 }
 
+// workItem is a decision prefix to explore. vals records, per decision index, the
+// candidate constant chosen by a concretisation at that decision, so that re-execution
+// asks exactly the same question (solver models are not deterministic across runs).
+type workItem struct {
+	dec  []bool
+	vals map[int]uint64
+}
+
 type pathState struct {
+	prefixVals map[int]uint64
+	vals       map[int]uint64
 	prefix     []bool
 	decisions  []bool
 	pc         []*Term
@@ -121,7 +131,7 @@ type pathState struct {
 	asserts    int
 	assertsUnk int
 	newDec     int
-	siblings   [][]bool
+	siblings   []workItem
 	unknowns   int
 }
 
@@ -183,6 +193,20 @@ func (i *interpreter) currentModel() map[string]uint64 {
 func (i *interpreter) modelValue(t *Term) uint64 {
 	m := i.currentModel()
 	return t.eval(m, map[*Term]uint64{})
+}
+
+// candidate returns the constant a concretisation proposes at the next decision: the
+// recorded one when replaying a prefix, otherwise a model value (which is then recorded).
+func (i *interpreter) candidate(t *Term) uint64 {
+	p := i.path
+	n := len(p.decisions)
+	if v, ok := p.prefixVals[n]; ok && n < len(p.prefix) {
+		p.vals[n] = v
+		return v
+	}
+	v := i.modelValue(t)
+	p.vals[n] = v
+	return v
 }
 
 func (i *interpreter) addPC(c *Term) {
@@ -267,7 +291,13 @@ func (i *interpreter) branch(c *Term) bool {
 		sib := make([]bool, n+1)
 		copy(sib, p.decisions)
 		sib[n] = false
-		p.siblings = append(p.siblings, sib)
+		vals := map[int]uint64{}
+		for k, v := range p.vals {
+			if k <= n {
+				vals[k] = v
+			}
+		}
+		p.siblings = append(p.siblings, workItem{dec: sib, vals: vals})
 	}
 	if !takeTrue && fFeas == resUnsat {
 		panic(pathAbort{kind: abortAssume, msg: "both sides infeasible"})
@@ -468,9 +498,9 @@ func (i *interpreter) wantSample() bool {
 }
 
 // runPath executes the harness once under the given decision prefix.
-func (i *interpreter) runPath(h *ssa.Function, prefix []bool) (res *PathResult) {
+func (i *interpreter) runPath(h *ssa.Function, item workItem) (res *PathResult) {
 	i.resetForPath()
-	p := &pathState{prefix: prefix}
+	p := &pathState{prefix: item.dec, prefixVals: item.vals, vals: map[int]uint64{}}
 	i.path = p
 	i.sched = newSched()
 	i.solver.beginPath()
@@ -617,7 +647,7 @@ func (pl *Pool) Run(h *ssa.Function, opts Options) *HarnessResult {
 	}
 	var mu sync.Mutex
 	cond := sync.NewCond(&mu)
-	queue := [][]bool{{}}
+	queue := []workItem{{}}
 	inflight := 0
 	stop := false
 	nw := opts.Workers
@@ -672,8 +702,9 @@ func (pl *Pool) Run(h *ssa.Function, opts Options) *HarnessResult {
 				t0 := time.Now()
 				q0, s0 := in.solver.stats.Queries, in.solver.stats.Seconds
 				res := in.runPath(h, prefix)
+				_ = prefix.dec
 				if os.Getenv("GOSYM_PATHLOG") != "" {
-					fmt.Fprintf(os.Stderr, "  path prefix=%d dec=%d new=%d steps=%d wall=%.3fs queries=%d solver=%.3fs outcome=%s %s\n", len(prefix), len(res.Decisions), res.NewDec, res.Steps,
+					fmt.Fprintf(os.Stderr, "  path prefix=%d dec=%d new=%d steps=%d wall=%.3fs queries=%d solver=%.3fs outcome=%s %s\n", len(prefix.dec), len(res.Decisions), res.NewDec, res.Steps,
 						time.Since(t0).Seconds(), in.solver.stats.Queries-q0, in.solver.stats.Seconds-s0, res.Outcome, firstLineOf(res.Msg))
 				}
 
